@@ -17,7 +17,7 @@ Oracle (float64, written from the property, shares no code with the library):
   x = tanh(l)*C if C>0 else l;  x[masked] = -inf;  z = x / T      (order documented in process_logits)
   normalisation    no NaN, every log-prob <= 0, |logsumexp(logp)| <= 1e-5
   masked_prob      exp(logp) == 0 exactly on masked entries
-  argmax_dropped   some feasible i with z_i = max z (tie-aware) has logp_i > -inf
+  argmax_dropped   some feasible i with z_i = max z (tie-aware) has probability > 0 ("kept" = exp(logp) > 0 in float64)
   top_k            top_k>0: #kept <= #{feasible i: z_i >= k'-th largest z}, k' = min(top_k, n) (the library
                    clamps top_k to the vector length; ties at the k'-th value may all stay)
   top_p_mass       sum of q_i over kept i >= top_p - 1e-6, q = softmax64 of the distribution that ENTERS
@@ -165,7 +165,7 @@ def judge(L, M, T, k, p, tc, lp):
     ref = reference(L, M, T, k, p, tc)
     lp64 = lp.double()
     P = lp64.exp()
-    kept = lp64 > -INF
+    kept = P > 0  # the support of the distribution ("kept" = positive probability, exactly as the property says; NaN -> not kept)
     out = {}
     nan = torch.isnan(lp64).any(-1)
     lse = torch.logsumexp(lp64.masked_fill(torch.isnan(lp64), 0.0), dim=-1)
@@ -481,19 +481,23 @@ def check_sampling(pt, L, M, T, k, p, tc, lp, seed):
             if seam.calls == r + 1 and seam.via[1:] and all(v == "Tensor.multinomial" for v in seam.via[1:]):
                 pt.outcome(f"resampled_{r}x_via_Tensor.multinomial")
     # ---- the real multinomial on the same distributions (conformance of the seam's premise) --------
-    if not bool(torch.isnan(lp).any()):
+    # only rows whose masked entries all have probability 0: otherwise (already reported above) the library's
+    # resampling loop may never end on a big batch
+    safe = (~((Pf > 0) & ~M).any(-1) & ~torch.isnan(lp).any(-1)).nonzero().flatten()
+    if safe.numel():
+        Ls, Ms, lps = L[safe], M[safe], lp[safe]
         torch.manual_seed(seed * 7 + 1)
         try:
-            sel = sampling(lp, M)
-            evals += R
-            pt.add(traces_validated_against_impl=R)
-            infeasible = ~M.gather(1, sel[:, None]).squeeze(1)
-            zero = Pf.gather(1, sel[:, None]).squeeze(1) <= 0
-            report_rows(pt, infeasible, L, M, T, k, p, tc, "sampling", "infeasible_returned", lambda i: f"real multinomial draw: sampling returned masked action {int(sel[i])}; probabilities {Pf[i].tolist()}")
+            sel = sampling(lps, Ms)
+            evals += safe.numel()
+            pt.add(traces_validated_against_impl=safe.numel())
+            infeasible = ~Ms.gather(1, sel[:, None]).squeeze(1)
+            zero = Pf[safe].gather(1, sel[:, None]).squeeze(1) <= 0
+            report_rows(pt, infeasible, Ls, Ms, T, k, p, tc, "sampling", "infeasible_returned", lambda i: f"real multinomial draw: sampling returned masked action {int(sel[i])}; probabilities {Pf[safe[i]].tolist()}")
             if bool((zero & ~infeasible).any()):
                 pt.note("real torch.multinomial returned an index of probability 0 (seam premise violated)")
         except Exception as e:
-            report_rows(pt, torch.ones(R, dtype=torch.bool), L, M, T, k, p, tc, "sampling", "invalid_distribution", lambda i: f"real sampling raised {type(e).__name__}: {str(e)[:100]}", cap=1)
+            report_rows(pt, torch.ones(safe.numel(), dtype=torch.bool), Ls, Ms, T, k, p, tc, "sampling", "invalid_distribution", lambda i: f"real sampling raised {type(e).__name__}: {str(e)[:100]}", cap=1)
     return evals
 
 
@@ -543,7 +547,7 @@ def check_step(pt, L, M, T, k, p, tc, lp):
     except Exception as e:
         if "harness" in str(e):
             raise
-        report_rows(pt, torch.ones(R, dtype=torch.bool), L, M, T, k, p, tc, "sampling", "assertion" if isinstance(e, AssertionError) else "invalid_distribution", lambda i: f"Sampling.step raised {type(e).__name__}: {str(e)[:100]} (batch witness)", cap=1, via="step")
+        report_rows(pt, torch.ones(R, dtype=torch.bool), L, M, T, k, p, tc, "sampling", "assertion" if isinstance(e, AssertionError) else ("resample_loop" if "does not terminate" in str(e) else "invalid_distribution"), lambda i: f"Sampling.step raised {type(e).__name__}: {str(e)[:100]} (batch witness)", cap=1, via="step")
     return evals
 
 
@@ -606,6 +610,7 @@ def main(tier):
     ]
     seed = seed_from_env()
     items = items_for(tier, seed)
+    D()  # import the library once, before the workers are forked
     parts = pmap(unit, items)
     rep.merge_all(parts)
     rep.extra["n_values"] = sorted({i[0] for i in items})
